@@ -59,7 +59,7 @@ func runC19Core(c *Ctx) {
 	if fn := c.Fn("C19.S1", "p.(*DB).replayWAL"); fn != nil {
 		reads := Or(ImplCall(c.Iface("C19.S1", "wal.Reader"), "wal.Reader", "NextRecord"), CallTo("io.Copy"))
 		fl := readErrFlow(c, reads, nil).
-			Edge("not-strict", BoolGuard("strictWALTail", false)).
+			Edge("not-strict", BoolGuard(ParamName(fn, 3), false)).
 			Derive("read-ok", []string{"is-unexpected-eof", "not-strict"})
 		entry := emptyState()
 		entry.add("read-ok")
@@ -121,7 +121,7 @@ func runC19Core(c *Ctx) {
 					return false, false
 				}
 				px, py := pathOf(bo.X), pathOf(bo.Y)
-				xInv, yInv := pathHasSuffix(px, "r.invalidOffset"), pathHasSuffix(py, "r.invalidOffset")
+				xInv, yInv := pathHasSuffix(px, "recv.invalidOffset"), pathHasSuffix(py, "recv.invalidOffset")
 				xU, yU := isCallNamed(bo.X, "Uint64", "binary"), isCallNamed(bo.Y, "Uint64", "binary")
 				switch {
 				case xU && yInv && bo.Op == token.GTR, xInv && yU && bo.Op == token.LSS:
